@@ -267,7 +267,8 @@ def gen_leak_spec(rng):
 def c15_history(col, rng, hidx, jobref=None):
     from tawazi.errors import TawaziArgumentException, TawaziUsageError
 
-    pid = "C15"
+    pid = (jobref or {}).get("pid", "C15")
+    col = _Filtered(col, (jobref or {}).get("only"))
     sp = gen_leak_spec(rng)
     plain = S.make_fns(sp)
     ids = S.node_ids(sp)
